@@ -46,6 +46,24 @@ PROPS = {
         "assumptions": COMMON_ASSUME + ["the retry oracle is asserted only when fail_timeout >= try_duration and the request ended before try_duration was spent; round_robin evenness is checked within windows of constant availability"],
         "must_hit": {"quick": ["hash-selection-recorded", "retry-answered-by-healthy", "all-failing-502", "retry-resent-body"], "thorough": ["hash-selection-recorded", "retry-answered-by-healthy", "all-failing-502", "retry-resent-body"]},
     },
+    "C13": {
+        "level": "exploration",
+        "budget": {"quick": 30, "thorough": 500},
+        "rule": "one evaluation = one seeded run: 1-3 concurrent requests (GET/POST/PUT/HEAD/DELETE/OPTIONS; paths under the rule incl. path-info, index resolution, upper-case extension, missing script; header values around the 127/128-byte length-encoding boundary and 20-65 KB so that Params needs several records; bodies of 0, 1, 100, 65499, 65500, 65501, 131000 bytes, chunked or not) against a scripted record-level responder whose stdout stream is cut into records at arbitrary points (inside the header block, inside a multi-byte sequence), with padding 0/1/7/255 of non-zero bytes, interleaved stderr records, with/without Status and Content-Length; every record and HTTP byte stream is re-segmented by simnet; distinct = distinct fingerprint of the ordered (event kind, actor role) sequence; non-trivial = at least 15 steps",
+        "nontrivial_steps": 15,
+        "real_vs_stub": "real: site on casket.Start, httpserver, net/http server, fastcgi directive (rule matching, buildEnv, FCGIClient record writer/reader), errors directive with a real log file, files in a per-run temp root; stub: the responder (scripted record-level peer; the client's dial is routed to simnet by overlay), TCP data path, clients, clock",
+        "assumptions": COMMON_ASSUME + ["FastCGI record boundaries chosen by the client depend on Go map iteration (writePairs) and are not part of any oracle; the responder decodes the streams"],
+        "must_hit": {"quick": ["request-reached-responder", "stderr-interleaved", "params-in-several-records"], "thorough": ["request-reached-responder", "stderr-interleaved", "params-in-several-records"]},
+    },
+    "C19": {
+        "level": "exploration",
+        "budget": {"quick": 30, "thorough": 500},
+        "rule": "one evaluation = one seeded run on one peer-facing surface chosen from the tape: (a) TLS site: 3-6 connections with one client configuration, their ClientHello delivered whole / cut inside the 5-byte record header / right after it / in the body / before the last byte / at several points, plus structure-aware hostile hellos (flipped bytes and length fields, truncations) and hostile User-Agent strings, always followed by a healthy connection; (b) FastCGI site: requests answered by a responder emitting one of 16 kinds of malformed output (bad version, lengths past EOF, EOF inside header/content/padding, status out of range / negative / not a number, missing header terminator, huge header line, unknown record types, garbage, lying Content-Length); distinct = distinct fingerprint of the ordered (event kind, actor role) sequence; non-trivial = at least 15 steps",
+        "nontrivial_steps": 15,
+        "real_vs_stub": "real: TLS site (casket.Start, httpserver tlsHelloListener/clientHelloConn/tlsHandler, crypto/tls server, net/http), FastCGI site as in C13; stub: TLS clients (crypto/tls client with seeded randomness, or raw bytes), responder, TCP data path, clock",
+        "assumptions": COMMON_ASSUME + ["the recorded ClientHello info is read through a build-time export shim while the connection is still open", "the pure string parsers (Link header, placeholders) are exercised only as payloads of other rigs; their totality over all strings is not claimed here"],
+        "must_hit": {"quick": ["hello-cut-after-record-header", "hello-cut-in-body", "segmented-hello-compared-with-whole", "hostile-clienthello"], "thorough": ["hello-cut-after-record-header", "hello-cut-in-body", "segmented-hello-compared-with-whole", "hostile-clienthello"]},
+    },
     "C16": {
         "level": "exploration",
         "budget": {"quick": 30, "thorough": 400},
@@ -83,6 +101,18 @@ MANIFEST_TEXT = {
         "design_ref": "DESIGN.md 6 C08",
         "note": "sequential histories only (no interleaving is claimed); hang = operation exceeding a 20 s real-time watchdog with a goroutine blocked inside tmpim/casket",
         "technique": DST + " restricted to fault sequences: seeded + enumerated histories of failing loads, residue oracle on kernel socket table / hook registry / responses",
+    },
+    "C13": {
+        "text": "seeded search over request shapes, body sizes around the record boundaries, responder output framings and every network segmentation against the real fastcgi directive and client: the scripted responder must receive exactly the CGI variables the statement names (method, query, script name / path info at the split, configured env, every header as HTTP_*) and exactly the body bytes; the client must receive exactly the responder's status, headers and body; stderr must be in the error log and nowhere in the response; a script file is never returned as static text.",
+        "design_ref": "DESIGN.md 6 C13",
+        "note": "the responder is a stub validated by decoding what the real client sends (any malformed client stream is itself reported as C13/client-framing)",
+        "technique": DST + "; oracle: byte-exact relay relations between HTTP request/response and the decoded FastCGI streams",
+    },
+    "C19": {
+        "text": "seeded search over segmentations of a ClientHello (metamorphic: the recorded hello info must exist and equal the one recorded for the same client configuration delivered in one read; handshake outcome must not depend on segmentation) and over hostile peer bytes (malformed hellos, User-Agents, FastCGI responder output) each followed by a healthy request: no panic line in the process or error log, no hang, server still serves.",
+        "design_ref": "DESIGN.md 6 C19",
+        "note": "decides the schedule-quantified part (segmentation) and the crash-containment part on live connections; does not claim totality of the pure string parsers over all inputs",
+        "technique": DST + "; oracle: metamorphic equality of the recorded ClientHello across segmentations + panic/liveness monitors under corrupted peer streams",
     },
     "C16": {
         "text": "seeded search over lifecycle histories (start, reloads succeeding or failing at each stage through the API and through SIGUSR1, stops, repeated and concurrent shutdown signals) against the real casket core with a fake server type; the recorded callback/listen/serve/stop trace is checked against an executable reference automaton written from the statement (exactly-once counts, order on successful reload, restart-failed-and-nothing-else on failed reload, final-shutdown only at process shutdown, Wait returns only after the lineage stopped).",
